@@ -92,6 +92,7 @@ def run(ctx):
     # (1d) sibling cross-check: row clearing and column clearing are transposes of each other
     siblings_agree(ctx, "T4-siblings-agree", M + "clear_later_rows_in_place", M + "clear_later_cols_in_place", "row step ~ column step", compare_fields=True)
     divisor_chain(ctx, g, ai)
+    elimination_ranges(ctx, g)
     ctx.clauses.append("gcdx is extended Euclid: r*A + s*B = +-gcd, t*A + u*B = 0, r*u - s*t = +-1 for every input (loop invariant decided on sampled states)")
     gx = ctx.body(M + "gcdx")
     ctx.scan([gx])
@@ -143,6 +144,44 @@ def run(ctx):
     ctx.ob("T2-drop-ones", ai.name, "filter(x != 1)", "ok" if okf else "violation", "trivial factors are dropped" if okf else "factors equal to 1 are no longer filtered out")
     ctx.ob("T2-pad-zeros", ai.name, "chain(repeat(0).take(nr_gens - n))", "ok" if okt and chain_ok else "violation",
            "one 0 per generator beyond the rank bound n = min(rows, nr_gens)" if okt and chain_ok else "the list is no longer padded with nr_gens - min(rows, nr_gens) zeros")
+
+
+def elimination_ranges(ctx, g):
+    """the pivot search and the row/column steps cover the whole trailing block: a loop whose variable indexes the rows of `mat` ends at
+    mat.len(), one whose variable indexes the columns ends at mat[0].len() - not at the minimum of the two (with fewer relators than
+    generators the pivot may sit in a column beyond the number of rows)"""
+    ctx.clauses.append("pivot search and elimination steps range over all remaining rows and all remaining columns (T4)")
+    n = 0
+    for fn in ("find_pivot", "move_pivot_in_place", "clear_later_rows_in_place", "clear_later_cols_in_place"):
+        b = ctx.body(M + fn)
+        mat = ("param", 1, b.debug.get(1, ""))
+        rows_t = ("call", "std::vec::Vec::<T, A>::len", (mat,))
+        seen = set()
+        for pat in ("Index::index", "IndexMut::index_mut"):
+            for bi, t in b.calls(pat):
+                a = [strip(norm(b.origin(x), g)) for x in t["args"]]
+                r = loop_range_of_payload(b, a[1], g)
+                if r is None:
+                    continue
+                base = a[0]
+                is_row_index = base == mat
+                is_col_index = (is_call(base, "Index::index") or is_call(base, "IndexMut::index_mut") or base[0] == "index") and contains(base, lambda y: y == mat)
+                if not (is_row_index or is_col_index):
+                    continue
+                hi = strip(expand_single_defs(b, r[1], g))
+                want_rows = hi == rows_t
+                want_cols = is_call(hi, "::len") and contains(hi, lambda y: y == mat) and hi != rows_t and not contains(hi, lambda y: is_call(y, "Ord::min"))
+                ok = (want_rows if is_row_index else want_cols) and not r[2]
+                key = (fn, "rows" if is_row_index else "columns", show(hi, 1)[:40])
+                if key in seen:
+                    continue
+                seen.add(key)
+                n += 1
+                ctx.ob("T4-elimination-ranges", b.name, "%s up to %s" % (key[1], "mat.len()" if is_row_index else "mat[0].len()"), "ok" if ok else "violation",
+                       "the %s loop ends at the matrix's own number of %s" % (key[1], key[1]) if ok else
+                       "the loop over the %s of the matrix ends at %s instead of %s: part of the trailing block is never looked at (a pivot there is missed, torsion is reported as a free factor)" % (
+                           key[1], show(hi, 1)[:50], "mat.len()" if is_row_index else "mat[0].len()"), b.span_of(bi))
+    ctx.floor("row/column loops of the elimination routines", n, 8)
 
 
 def divisor_chain(ctx, g, ai):
